@@ -347,13 +347,21 @@ func realRouter(id int, G, burst int, pause, wait time.Duration) {
 	tol := 1500*time.Microsecond + can.StallSince(t0)
 	fr := l.Frames(0)
 	var tx []time.Duration
+	stamped := true
 	for _, f := range fr {
 		if p := spec.Parse(f.Bytes); p.OK && p.Service == spec.SvcRoutingInd {
 			tx = append(tx, f.T)
+			stamped = stamped && f.Kernel
 		}
 	}
 	atomic.AddInt64(&nTx, int64(len(tx)))
 	r.Eval(1)
+	if !stamped {
+		// without kernel transmit timestamps the times are those at which the capture
+		// goroutine got to read the packets, which bunch up whenever it is scheduled late
+		r.Inconclusive(sig + ": the capture has no kernel transmit timestamps; not judged")
+		return
+	}
 	if len(tx) != G*burst {
 		r.Inconclusive(fmt.Sprintf("%s: captured %d of %d transmissions (capture loss); not judged", sig, len(tx), G*burst))
 		return
